@@ -102,6 +102,7 @@ KSTR = [6, 8, 9, 1]                   # 'a', 'aa', 'b', 1: strings of different 
 K6 = [0, 1, 2, 4, 5, 6]
 K4 = [1, 4, 5, 6]        # 1, nan#1, nan#2, 'a'
 K3 = [1, 4, 5]
+K3M = [1, 4, 6]         # 1, nan#1, 'a'
 
 
 def mk(i, nans):
@@ -499,6 +500,49 @@ def check_spellings(case):
     return out
 
 
+# ------------------------------------------------------------------------------------------------ suite modes: the shared non-key column, every mode, m x n key groups
+
+JL = [None, 'L1', ('t', 2), 'L3']          # cells of the shared non-key column j by row number: None, a tuple and a list are cells like any other
+JR = ['R0', None, ['u'], 'R3']
+MODES = [None, 'l', 'r', 0, 1, 'left', 'rhs', 'fn']
+
+
+def check_modes(case):
+    """x.join(y, 'k', mode=m) for every mode on tables that share the non-key column j: the multiset of (left row, right row) pairs, and for every
+    pair the cell the mode prescribes ((l, r) by default, l's, r's, f(l, r)) -- whatever the size of the key group and whatever the cells hold"""
+    from pyg_base import dictable
+    out = Out()
+    nans = {'nan#1': float('nan'), 'nan#2': float('nan')}
+    lk = [mk(i[0], nans) for i in case['l']]
+    rk = [mk(i[0], nans) for i in case['r']]
+    x = dictable(dict(k=list(lk), v=list(range(len(lk))), j=[JL[i] for i in range(len(lk))]))
+    y = dictable(dict(k=list(rk), w=list(range(len(rk))), j=[JR[i] for i in range(len(rk))]))
+    lrows = [dict(k=lk[i], v=i, j=JL[i]) for i in range(len(lk))]
+    rrows = [dict(k=rk[i], w=i, j=JR[i]) for i in range(len(rk))]
+    sx, sy = _snap(x), _snap(y)
+    lab = 'l=%s r=%s (j: left %s right %s)' % (show(lk), show(rk), JL[:len(lk)], JR[:len(rk)])
+    kf = lambda row: (row['k'],)
+    groups = collections.Counter()
+    for a in lk:
+        n = sum(1 for b in rk if keq(a, b))
+        m = sum(1 for b in lk if keq(a, b))
+        groups[(min(m, 2), min(n, 2))] += 1
+    big = groups.get((2, 2), 0) > 0
+    for mode in MODES:
+        out.sub()
+        m = (lambda a, b: (a, b, 'f')) if mode == 'fn' else mode
+        sig = dict(op='join', mode=str(mode), group='mxn' if big else 'small')
+        ok, res = _call(out, "x.join(y, 'k', mode=%r) %s" % (mode, lab), lambda: x.join(y, 'k', mode=m), sig)
+        if ok:
+            check_join(out, "x.join(y, 'k', mode=%r) %s" % (mode, lab), res, lrows, rrows, kf, kf, ['k'], mode, sig)
+    if not (_unchanged(x, sx) and _unchanged(y, sy)):
+        out.viol('operand-mutated', '%s: an operand changed' % lab, op='join', suite='modes')
+    out.cls('group-2x2' if big else 'group-1xn' if any(k[1] == 2 or k[0] == 2 for k in groups) else 'one-to-one' if groups.get((1, 1)) else 'no-match')
+    if big or any(k[1] == 2 or k[0] == 2 for k in groups):
+        out.nontrivial()
+    return out
+
+
 def gen_basic(dom, lmax, rmax, ncol=1, total=None):
     if ncol == 1:
         L = [[[i] for i in s] for s in seqs(dom, 0, lmax)]
@@ -532,6 +576,9 @@ def suites(tier, seed):
                        rule='all pairs 0..2 x 0..1 rows over the 8-value domain x every key spelling (names, lists, tuple, different names, callable on '
                             'either side, None/auto, * and /, [] = cross product) x every mode (None,l,r,0,1,left,rhs,callable)',
                        bounds=dict(left_rows=2, right_rows=1)))
+        S.append(Suite('modes', lambda: gen_basic(K3M, 3, 3), check_modes,
+                       rule='one key column over {1, nan#1, a}: all pairs 0..3 x 0..3 rows (key groups up to 3 x 3) sharing a non-key column whose cells are None, strings, '
+                            'a tuple and a list x every mode (None,l,r,0,1,left,rhs,callable); non-trivial = a key occurring twice on one side', bounds=dict(left_rows=3, right_rows=3, key_values=3)))
         S.append(Suite('strings', lambda: gen_basic(KSTR, 3, 2), check_basic,
                        rule="one key column over {'a','aa','b',1}: strings of different lengths, the longer one alphabetically smaller; all pairs 0..3 x 0..2 rows", bounds=dict(key_values=4)))
         S.append(Suite('infs', lambda: gen_basic(KINF, 2, 2), check_basic,
@@ -550,6 +597,9 @@ def suites(tier, seed):
                        bounds=dict(left_rows=4, right_rows=4, total_rows=7, key_values=4)))
         S.append(Suite('spellings', lambda: gen_spell(2, 2), check_spellings,
                        rule='all pairs 0..2 x 0..2 rows over the 8-value domain x every key spelling x every mode', bounds=dict(left_rows=2, right_rows=2)))
+        S.append(Suite('modes', lambda: gen_basic(K4, 4, 3), check_modes,
+                       rule='one key column over {1, nan#1, nan#2, a}: all pairs 0..4 x 0..3 rows sharing a non-key column whose cells are None, strings, a tuple and a list x every mode',
+                       bounds=dict(left_rows=4, right_rows=3, key_values=4)))
         S.append(Suite('strings', lambda: gen_basic(KSTR, 3, 3), check_basic,
                        rule="one key column over {'a','aa','b',1}: strings of different lengths; all pairs 0..3 x 0..3 rows", bounds=dict(key_values=4)))
         S.append(Suite('infs', lambda: gen_basic(KINF, 3, 3), check_basic,
